@@ -59,7 +59,7 @@ def decks_for(quick, rng):
 
 
 # ------------------------------------------------------------------------------------------------ generated inputs
-def thin(data, rng, per_part=25):
+def thin(data, rng, per_part=25, only=None, factor=None):
     """a deck in a document shape the corpus does not have: optional elements and attributes are removed at random as
     long as the part stays schema-valid (lxml), so that getters meet ABSENT elements and attributes"""
     from pptx import Presentation
@@ -70,6 +70,8 @@ def thin(data, rng, per_part=25):
     for pn, el in X.xml_parts(prs.part.package):
         if X.schema_for(el) is None:
             continue
+        if only is not None and not pn.startswith(only):
+            continue
         ok0, _ = X.validate(el)
         if not ok0:
             continue
@@ -77,7 +79,7 @@ def thin(data, rng, per_part=25):
         if not nodes:
             continue
         is_chart = pn.startswith("/ppt/charts/")
-        for _ in range(max(per_part, len(nodes) // 2) if is_chart else per_part):
+        for _ in range(factor * len(nodes) if factor else (max(per_part, len(nodes) // 2) if is_chart else per_part)):
             e = rng.choice(nodes)
             parent = e.getparent()
             if parent is None:
@@ -328,6 +330,29 @@ def irregular_variants(rng):
                 data = re.sub(rb"<p:notesMasterIdLst>.*?</p:notesMasterIdLst>", b"", data, flags=re.S)
             zo.writestr(n, data)
     out.append(("generated-deck(notes master related from its notes slide only)", o2.getvalue()))
+    # -- a notes slide that does not refer back to its slide; a notes slide shared by two slides (what the usual
+    # -- copy-the-relationships recipe for duplicating a slide leaves)
+    prs = build_deck()
+    prs.slides[0].notes_slide.notes_text_frame.text = "n0"
+    b = io.BytesIO(); prs.save(b)
+    z = zipfile.ZipFile(io.BytesIO(b.getvalue()))
+    notes = sorted(n for n in z.namelist() if re.fullmatch(r"ppt/notesSlides/_rels/notesSlide\d+\.xml\.rels", n))
+    for variant in ("no-back-relationship", "shared-by-two-slides"):
+        o = io.BytesIO()
+        with zipfile.ZipFile(o, "w", zipfile.ZIP_DEFLATED) as zo:
+            shared = None
+            for n in z.namelist():
+                data = z.read(n)
+                if variant == "no-back-relationship" and n == notes[0]:
+                    data = re.sub(rb'<Relationship [^>]*relationships/slide"[^>]*/>', b"", data)
+                if variant == "shared-by-two-slides" and re.fullmatch(r"ppt/slides/_rels/slide\d+\.xml\.rels", n) and b"notesSlide" not in data:
+                    if shared is None:
+                        shared = n
+                        tgt = "../notesSlides/" + notes[0].split("/")[-1][: -len(".rels")]
+                        data = data.replace(b"</Relationships>", ('<Relationship Id="rId77" Type="http://schemas.openxmlformats.org/officeDocument/2006/'
+                                            'relationships/notesSlide" Target="%s"/></Relationships>' % tgt).encode())
+                zo.writestr(n, data)
+        out.append((f"generated-deck(notes slide: {variant})", o.getvalue()))
     return out
 
 
@@ -399,6 +424,11 @@ def observe_all(quick, seed):
     for k in range(2 if quick else 10):
         td, n = thin(b.getvalue(), rng)
         out.append(observe_deck(Presentation(io.BytesIO(td)), f"generated-deck(thinned#{k},{n} removed)", rng, 3000))
+    for k in range(1 if quick else 4):
+        # chart parts thinned to (nearly) the minimum the schema requires: every optional element a getter may look for
+        # is absent somewhere
+        td, n = thin(b.getvalue(), rng, only="/ppt/charts/", factor=3)
+        out.append(observe_deck(Presentation(io.BytesIO(td)), f"generated-deck(charts thinned to the minimum#{k},{n} removed)", rng, 3000))
     for k in range(1 if quick else 5):
         ed, n = enrich(b.getvalue(), rng, per_part=40)
         out.append(observe_deck(Presentation(io.BytesIO(ed)), f"generated-deck(enriched#{k},{n} added)", rng, 3000))
@@ -508,6 +538,38 @@ def read_package(data):
     return out
 
 
+def read_rel_sets(data):
+    """-> {relationship path of the source part: sorted [(Id, Type, 'external:<target>' | 'internal')]} for the parts
+    reachable from the package root; relationships whose internal target is not in the zip are left out (the loader drops
+    them)"""
+    z = zipfile.ZipFile(io.BytesIO(data))
+    names = set(z.namelist())
+    out, seen = {}, set()
+    stack = [((), "")]
+    while stack:
+        key, member = stack.pop()
+        d, f = posixpath.split(member)
+        r = posixpath.join(d, "_rels", f + ".rels") if member else "_rels/.rels"
+        if r not in names:
+            continue
+        rows = []
+        for rel in etree.fromstring(z.read(r)):
+            rid, ty, tgt = rel.get("Id"), rel.get("Type"), rel.get("Target")
+            if rel.get("TargetMode") == "External":
+                rows.append((rid, ty, "external:" + tgt))
+                continue
+            base = posixpath.dirname(member)
+            m = posixpath.normpath(posixpath.join(base, tgt)).lstrip("/") if not tgt.startswith("/") else posixpath.normpath(tgt).lstrip("/")
+            if m not in names:
+                continue
+            rows.append((rid, ty, "internal"))
+            if m not in seen:
+                seen.add(m)
+                stack.append((key + (rid,), m))
+        out[key] = sorted(rows)
+    return out
+
+
 def traverse_and_save(deck_bytes, rng, ctx):
     from pptx import Presentation
 
@@ -561,6 +623,15 @@ def end_to_end(ctx, label, data, lines, metas):
     T = schemagen.tables()
     roots, inner = container_ids()
     case = {"deck": label}
+    ra_, rb_ = read_rel_sets(a.getvalue()), read_rel_sets(saved)
+    for k in sorted(set(ra_) & set(rb_)):
+        if ra_[k] != rb_[k]:
+            src = pa[k][0] if k in pa else "the package"
+            more = [r for r in rb_[k] if r not in ra_[k]]
+            less = [r for r in ra_[k] if r not in rb_[k]]
+            ctx.fail("e2e:relationships", f"{label}: the relationships of {src} differ after reading the presentation: added {more[:3]}, missing {less[:3]}", dict(case, part=src))
+            break
+    ctx.count("e2e-relationship-items-compared", len(set(ra_) & set(rb_)))
     if set(pa) != set(pb):
         only_a = sorted(pa[k][0] for k in set(pa) - set(pb))
         only_b = sorted(pb[k][0] for k in set(pb) - set(pa))
